@@ -112,9 +112,9 @@ func (x *Exec) applyContract(st *State, fr *Frame, site ssa.Instruction, c *Cont
 		if lbl == "" {
 			lbl = fmt.Sprint(i)
 		}
-		g := env.evalBool(r)
+		g, note := safeEval(env, r)
 		x.emit(st, fmt.Sprintf("pre:%s%s.%s@%d", fr.prefix, c.Short, lbl, ord), "pre", g,
-			fmt.Sprintf("precondition %q of %s at call in %s", r.Src, c.Key, fr.fn.Name()))
+			fmt.Sprintf("precondition %q of %s at call in %s%s", r.Src, c.Key, fr.fn.Name(), note))
 		st.assume(g)
 	}
 	var panicCond Tm = tFalse
@@ -640,8 +640,9 @@ func (x *Exec) loopHeader(st *State, fr *Frame, h *ssa.BasicBlock, pred *ssa.Bas
 				if lbl == "" {
 					lbl = fmt.Sprint(i)
 				}
-				x.emit(st, fmt.Sprintf("inv_step:%s.%s", label, lbl), "inv_step", env.evalBool(inv),
-					fmt.Sprintf("loop %d invariant %q preserved in %s", ord, inv.Src, fr.fn.Name()))
+				g, note := safeEval(env, inv)
+				x.emit(st, fmt.Sprintf("inv_step:%s.%s", label, lbl), "inv_step", g,
+					fmt.Sprintf("loop %d invariant %q preserved in %s%s", ord, inv.Src, fr.fn.Name(), note))
 			}
 			if spec.Decr != nil && rec.decr != nil {
 				d1 := env.typed(env.eval(spec.Decr.Expr), types.Typ[types.Int])
@@ -667,8 +668,9 @@ func (x *Exec) loopHeader(st *State, fr *Frame, h *ssa.BasicBlock, pred *ssa.Bas
 			if lbl == "" {
 				lbl = fmt.Sprint(i)
 			}
-			x.emit(st, fmt.Sprintf("inv_entry:%s.%s", label, lbl), "inv_entry", env.evalBool(inv),
-				fmt.Sprintf("loop %d invariant %q on entry in %s", ord, inv.Src, fr.fn.Name()))
+			g, note := safeEval(env, inv)
+			x.emit(st, fmt.Sprintf("inv_entry:%s.%s", label, lbl), "inv_entry", g,
+				fmt.Sprintf("loop %d invariant %q on entry in %s%s", ord, inv.Src, fr.fn.Name(), note))
 		}
 	}
 	// havoc loop-carried values and the heap the loop may modify
